@@ -179,6 +179,13 @@ def allowed_st(S, cfg, ty, o, ovr, extras):
                 if f["name"] in o:
                     out |= allowed_st(S, cfg, f["ty"], o[f["name"]], ovr, extras)
         return out
+    if k == "union":
+        # the payload is handed, as it is, to the hook of the member the decision function names: whatever may be
+        # shared when structuring it as one of the members
+        if o is not None:
+            for m in ty[1]:
+                out |= allowed_st(S, cfg, ("cls", m), o, ovr, extras)
+        return out
     if k == "td":
         if isinstance(o, dict):
             declared = set()
@@ -275,6 +282,8 @@ def allowed_un(S, cfg, ty, o, ovr, extras):
                 if hasattr(o, f["name"]):
                     out |= allowed_un(S, cfg, f["ty"], getattr(o, f["name"]), ovr, extras)
         return out
+    if k == "union":
+        return allowed_un_any(S, cfg, o, ovr, extras)   # encoded by run-time class
     if k == "td":
         if not cfg["gen"]:
             return allowed_un_any(S, cfg, o, ovr, extras)
@@ -391,7 +400,8 @@ def judge(chk, drv, obs, line, case, what, stats, corr_fail):
         return
     stats["compared"] += 1
     if m["agree"] == "0":
-        stats["heap-vs-pure-model-disagree"] += 1
+        # (the pure `un` is total: F10-style TypeErrors of unstructure show up here as "err")
+        stats["heap-vs-pure-model-disagree:" + m["outcome"]] += 1
     # the result *value* is C01/C02's observable, not C11's: logged, never decides the run
     if obs.value is not None and m["value"] is not None and m["value"] != obs.value:
         stats["result-value-differs(logged only)"] += 1
@@ -486,7 +496,7 @@ def do_case(chk, drv, S, spec, stats, corr_fail, cache, arg=None):
         line = "ALIAS-TAGGED %s %s %s %s %s" % (terms.world_sx(w), terms.cfg_sx(cfg), d, tsx, terms.obj_sx(arg_abs))
         tyname = "tagged-union"
     else:
-        rty = S.R.ty(ty)
+        rty = spelled_ty(S, ty, spec.get("spell") or "param")
         if d == "st":
             call = lambda a: conv.structure(a, rty)  # noqa: E731
             allowed_fn = lambda extras: allowed_st(S, cfg, ty, arg, ovr, extras)  # noqa: E731
@@ -495,7 +505,7 @@ def do_case(chk, drv, S, spec, stats, corr_fail, cache, arg=None):
             allowed_fn = lambda extras: allowed_un(S, cfg, ty, arg, ovr, extras)  # noqa: E731
         line = "ALIAS %s %s %s %s %s %s" % (terms.world_sx(w), terms.cfg_sx(cfg), d, terms.ty_sx(ty),
                                             terms.obj_sx(arg_abs), ovr_sx(ovr))
-        tyname = terms.ty_sx(ty)
+        tyname = terms.ty_sx(ty) + ("" if (spec.get("spell") or "param") == "param" else "/bare-" + spec["spell"])
     obs = observe(S, call, arg, allowed_fn)
     what = f"{spec['mode']} {d} {cfg_name(cfg)} {tyname} arg={terms.canon_sx(arg_abs)[:300]}"
     case = dict(spec, world=w, arg=arg_abs)
@@ -537,7 +547,7 @@ def sanitize(w):
 
 
 def my_worlds(chk, drv, n_worlds):
-    G = gen.Gen(chk.rng)
+    G = gen.Gen(chk.rng, unions=True)
     made = attempts = 0
     while made < n_worlds and attempts < n_worlds * 3:
         attempts += 1
@@ -706,6 +716,177 @@ def stream_tagged(chk, drv, stats, corr_fail, n_worlds):
                     do_case(chk, drv, S, spec, stats, corr_fail, cache)
 
 
+# ------------------------------------------------------------------ same-class containers at bare / Any-element positions
+# The documented pass-through at an Any position is the ELEMENT, never the container that holds it:
+# `structure({1, 2}, set)` / `unstructure([..], unstructure_as=list)` must build a new container even
+# though nothing needs converting and the payload already has the target class.
+
+import typing  # noqa: E402
+
+BARE_SPELLINGS = {
+    "list": (list, typing.List), "seq": (typing.Sequence, typing.Sequence),
+    "mseq": (typing.MutableSequence, typing.MutableSequence), "tup*": (tuple, typing.Tuple),
+    "deque": (collections.deque, typing.Deque), "set": (set, typing.Set),
+    "mset": (typing.MutableSet, typing.MutableSet), "fset": (frozenset, typing.FrozenSet),
+    "dict": (dict, typing.Dict), "map": (typing.Mapping, typing.Mapping),
+    "mmap": (typing.MutableMapping, typing.MutableMapping),
+}
+ONE = {"list": lambda a: list[a], "seq": lambda a: typing.Sequence[a], "mseq": lambda a: typing.MutableSequence[a],
+       "tup*": lambda a: tuple[a, ...], "deque": lambda a: collections.deque[a], "set": lambda a: set[a],
+       "mset": lambda a: typing.MutableSet[a], "fset": lambda a: frozenset[a], "opt": lambda a: typing.Optional[a]}
+TWO = {"dict": lambda a, b: dict[a, b], "map": lambda a, b: typing.Mapping[a, b],
+       "mmap": lambda a, b: typing.MutableMapping[a, b]}
+SEQ_TAG = {"list": "l", "seq": "l", "mseq": "l", "tup*": "t", "deque": "q", "set": "S", "mset": "S", "fset": "F"}
+ANY_COLLS = [("list", "any"), ("seq", "any"), ("mseq", "any"), ("tup*", "any"), ("deque", "any"), ("set", "any"),
+             ("mset", "any"), ("fset", "any"), ("dict", "any", "any"), ("map", "any", "any"), ("mmap", "any", "any")]
+
+
+def spelled_ty(S, t, spell):
+    """the Python type for t; `spell` in param|builtin|typing: collection nodes whose arguments are all Any
+    are written `X[Any]`, as the bare builtin (`set`) or as the bare typing alias (`typing.Set`)"""
+    if isinstance(t, str):
+        return S.R.ty(t)
+    k = t[0]
+    if k in BARE_SPELLINGS and spell != "param" and all(x == "any" for x in t[1:]):
+        return BARE_SPELLINGS[k][0 if spell == "builtin" else 1]
+    if k in ONE:
+        return ONE[k](spelled_ty(S, t[1], spell))
+    if k in TWO:
+        return TWO[k](spelled_ty(S, t[1], spell), spelled_ty(S, t[2], spell))
+    if k == "tup":
+        return tuple[tuple(spelled_ty(S, x, spell) for x in t[1])] if t[1] else tuple[()]
+    return S.R.ty(t)
+
+
+def sc_any_value(rng, depth, hashable=False):
+    """a value for an Any position: leaves and (unless it must be hashable) mutable containers"""
+    c = rng.random()
+    if hashable:
+        if c < 0.75 or depth <= 0:
+            return rng.choice([("i", rng.randint(0, 30)), ("s", rng.choice(["b", "x7", "zz", ""]))])
+        return ("t", [("i", rng.randint(40, 60)), ("s", "c")])
+    if c < 0.35 or depth <= 0:
+        return rng.choice([("i", rng.randint(-5, 30)), ("s", rng.choice(["b", "x7", ""])), ("N",), ("b", True)])
+    if c < 0.6:
+        return ("l", [sc_any_value(rng, depth - 1) for _ in range(rng.randint(0, 2))])
+    if c < 0.75:
+        return ("d", uniq_kvs([(("s", rng.choice(["a", "b", "k"])), sc_any_value(rng, depth - 1)) for _ in range(rng.randint(0, 2))]))
+    if c < 0.85:
+        return ("S", uniq([("i", rng.randint(0, 9)) for _ in range(rng.randint(0, 3))]))
+    if c < 0.93:
+        return ("q", [("i", 1)])
+    return ("o", rng.randint(0, 3))
+
+
+def uniq(xs):
+    out = []
+    for x in xs:
+        if not any(gen.py_eq(x, y) for y in out):
+            out.append(x)
+    return out
+
+
+def uniq_kvs(kvs):
+    out = []
+    for k, v in kvs:
+        if not any(gen.py_eq(k, u) for u, _ in out):
+            out.append((k, v))
+    return out
+
+
+def sc_value(rng, w, t, depth, same=0.85):
+    """a value / payload for t whose containers have the target class with probability `same`"""
+    if t == "any":
+        return sc_any_value(rng, depth)
+    if isinstance(t, str):
+        return {"int": ("i", rng.randint(-3, 9)), "str": ("s", rng.choice(["b", "zz"])), "bool": ("b", True),
+                "float": ("f", 3), "bytes": ("y", "62")}[t]
+    k = t[0]
+    if k in SEQ_TAG:
+        tag = SEQ_TAG[k] if rng.random() < same else rng.choice(["l", "t", "q", "S", "F"])
+        keyed = tag in ("S", "F")
+        n = rng.randint(0, 3)
+        if t[1] == "any":
+            xs = [sc_any_value(rng, depth - 1, hashable=keyed) for _ in range(n)]
+        else:
+            xs = [sc_value(rng, w, t[1], depth - 1, same) for _ in range(n)]
+            if keyed and not all(gen.hashable_abs(x) for x in xs):
+                tag = "l"
+        return (tag, uniq(xs) if tag in ("S", "F") else xs)
+    if k in TWO:
+        kvs = []
+        for _ in range(rng.randint(0, 3)):
+            kk = sc_any_value(rng, 0, hashable=True) if t[1] == "any" else sc_value(rng, w, t[1], 0, same)
+            kvs.append((kk, sc_value(rng, w, t[2], depth - 1, same)))
+        return ("d", uniq_kvs(kvs))
+    if k == "opt":
+        return ("N",) if rng.random() < 0.2 else sc_value(rng, w, t[1], depth, same)
+    if k == "tup":
+        return ("t", [sc_value(rng, w, x, depth - 1, same) for x in t[1]])
+    if k == "cls":
+        return ("I", t[1], [(f["name"], sc_value(rng, w, f["ty"], depth - 1, same)) for f in w["classes"][t[1]]["fields"]])
+    raise ValueError(t)
+
+
+def sc_world(rng):
+    """two classes (attrs, dataclass) whose attributes are Any-element collections of every kind"""
+    w = {"classes": [], "enums": []}
+    for kind in ("attrs", "dc"):
+        names = rng.sample(gen.FIELD_NAMES, 3)
+        fields = [{"name": n, "alias": n.lstrip("_") if kind == "attrs" else n, "ty": rng.choice(ANY_COLLS), "dflt": None,
+                   "init": True, "required": True, "kw_only": False} for n in names]
+        w["classes"].append({"kind": kind, "frozen": False, "fields": fields, "slots": rng.random() < 0.5, "recursive": None})
+    return w
+
+
+def sc_types(rng, w):
+    """top-level and nested positions"""
+    out = list(ANY_COLLS)
+    for _ in range(8):
+        x = rng.choice(ANY_COLLS)
+        out.append(rng.choice([("list", x), ("opt", x), ("dict", "str", x), ("seq", x), ("tup*", x), ("deque", x),
+                               ("map", "int", ("list", x)), ("tup", [x, "int"]), ("cls", rng.randrange(2)),
+                               ("list", ("cls", rng.randrange(2))), ("dict", "str", "any"), ("dict", "any", "int")]))
+    return out
+
+
+def stream_sameclass(chk, drv, stats, corr_fail, n_worlds):
+    rng = chk.rng
+    made = 0
+    while made < n_worlds:
+        w = sc_world(rng)
+        try:
+            S = Session(drv, w)
+        except Exception:  # noqa: BLE001
+            chk.note("world-rejected-by-python")
+            continue
+        made += 1
+        cache = {}
+        for ty in sc_types(rng, w):
+            chk.note("sameclass-ty:" + (ty[0] if ty in ANY_COLLS else "nested"))
+            for cfg in rng.sample(ALL_CFGS, 4):
+                if not cfg["gen"] and any(not isinstance(x, str) and x[0] == "tup" for x in gen.walk_types(ty)):
+                    continue          # BaseConverter: heterogeneous tuples of leaves only
+                spell = rng.choice(["param", "builtin", "typing"])
+                chk.note("spelling:" + spell)
+                for d in ("st", "un"):
+                    x = sc_value(rng, w, ty, 3)
+                    if gen.lookalike_hazard(x):
+                        continue
+                    if d == "st" and rng.random() < 0.5:
+                        # the payload a round trip would feed back: the converter's own encoding
+                        try:
+                            u = S.conv(cfg).unstructure(S.R.val(x), unstructure_as=spelled_ty(S, ty, spell))
+                            x = S.R.abs(u)
+                        except Exception:  # noqa: BLE001
+                            pass
+                    spec = {"mode": "plain", "cfg": cfg, "dir": d, "ty": ty, "arg": x, "spell": spell}
+                    try:
+                        do_case(chk, drv, S, spec, stats, corr_fail, cache)
+                    except Unrepresentable:
+                        chk.note("value-not-realisable")
+
+
 # ------------------------------------------------------------------ entry points
 
 def run(chk: framework.Check):
@@ -716,6 +897,7 @@ def run(chk: framework.Check):
     stream_plain(chk, drv, stats, corr_fail, 110 if quick else 1200)
     stream_td(chk, drv, stats, corr_fail, 150 if quick else 1500)
     stream_tagged(chk, drv, stats, corr_fail, 90 if quick else 900)
+    stream_sameclass(chk, drv, stats, corr_fail, 40 if quick else 400)
     # the witness of finding F34 must keep reproducing (else the entry is stale)
     n_f34 = chk.known_hits.get("F34", 0)
     chk.extra["finding_F34_reproduced"] = n_f34
@@ -739,7 +921,7 @@ def run(chk: framework.Check):
 def replay(case):
     drv = lean.Driver()
     case = terms.case_from_json(case)
-    spec = {k: case[k] for k in ("mode", "cfg", "dir", "ty", "ovr", "tagged") if k in case}
+    spec = {k: case[k] for k in ("mode", "cfg", "dir", "ty", "ovr", "tagged", "spell", "frame_only") if k in case}
     spec["arg"] = terms.tuple_ify(case["arg"])
     if spec.get("ty") is not None:
         spec["ty"] = terms.tuple_ify(spec["ty"])
